@@ -35,6 +35,26 @@ def main():
              "passes the pinned suite, and comes with a demonstration that fails with it and passes without. I confirmed each in a "
              "scratch worktree (`harness/seedtest.sh`) and ran the registered quick check against the changed tree.")
   out.append("")
+  rounds = {}
+  for d in sorted(glob.glob(os.path.join(VERIF, "seeded", "*"))):
+    mp = os.path.join(d, "meta.json")
+    if os.path.exists(mp):
+      m = json.load(open(mp))
+      r = rounds.setdefault(int(m.get("round", 1)), [0, 0, 0])
+      r[0] += 1
+      own = [x for x in m.get("confirmed", {}).get("checks_run", "").split() if x.startswith(str(m.get("property", "?")) + ":")]
+      r[1] += 1 if own and own[0].endswith("rc=1") else 0
+      r[2] += 1 if m.get("strengthened") else 0
+  for k in sorted(rounds):
+    n, det, stren = rounds[k]
+    out.append(f"* round {k}: {n} changes, {det} detected by the quick check of their own property as it stands now, "
+               f"{stren} of them only after the generators / specs were strengthened (see the notes in the last column)" +
+               ("; later rounds were told what earlier rounds had done and asked for rarer triggers" if k > 1 else "") + ".")
+  out.append("")
+  out.append("Every strengthening widened what is generated or observed (new document shapes, values, operation orders, base files, "
+             "fault kinds); none special-cases the seeded change, and after each one the check was re-run on the unchanged tree "
+             "(seeds 0-4) to make sure it stays silent there.")
+  out.append("")
   out.append("| seeded change | property | what it needs to manifest | check result |")
   out.append("|---|---|---|---|")
   for d in sorted(glob.glob(os.path.join(VERIF, "seeded", "*"))):
